@@ -44,7 +44,17 @@ func TestC13FromServiceTags(t *testing.T) {
 		pos := rapid.IntRange(0, len(tags)).Draw(t, "redirect-tag-position")
 		tags = append(tags[:pos:pos], append([]string{tag}, tags[pos:]...)...)
 		tags = append(tags, "v1")
-		svc := &api.CatalogService{Node: "n1", Address: "10.0.0.1", ServiceID: "web-1", ServiceName: "web", ServiceAddress: "10.0.0.5", ServicePort: 8080, ServiceTags: tags}
+		// a registration that exists only to carry redirect tags needs no upstream of its own: it may
+		// have no port (and no service address)
+		port, saddr := 8080, "10.0.0.5"
+		if rapid.IntRange(0, 2).Draw(t, "registered-without-port") == 0 {
+			port = 0
+			if rapid.Bool().Draw(t, "and-without-address") {
+				saddr = ""
+			}
+			hx.Class("redirect-from-a-registration-without-port")
+		}
+		svc := &api.CatalogService{Node: "n1", Address: "10.0.0.1", ServiceID: "web-1", ServiceName: "web", ServiceAddress: saddr, ServicePort: port, ServiceTags: tags}
 		cmds := consul.VerifRouteCmds(svc, "urlprefix-", map[string]string{"DC": "dc1"})
 		cfg := strings.Join(cmds, "\n")
 		tbl, err := route.NewTable(bytes.NewBufferString(cfg))
